@@ -717,7 +717,67 @@ func C11(c *Ctx) {
 			}
 			n5++
 			p, isParam := ctxArg.(*ssa.Parameter)
-			c.R.Check(isParam && p.Parent() == f, "C11-R5", fmt.Sprintf("%s: context passed to %s #%d", fname(f), name, n5), c.pos(in), "the enclosing function's own ctx parameter", "the context handed on is not the ctx parameter of the enclosing call ("+ctxArg.String()+"): a per-call deadline or cancellation would not reach the script")
+			okCtx := isParam && p.Parent() == f
+			if ld, isLd := ctxArg.(*ssa.UnOp); !okCtx && isLd && ld.Op == token.MUL {
+				// the context may be kept in a per-call record: a field of a local struct that a caller in package core
+				// built from its own ctx parameter and that is confined to that caller's activation (its methods do the work)
+				if fa, isFA := ld.X.(*ssa.FieldAddr); isFA {
+					coreFns := c.P.FuncsIn("core")
+					// the records the field is read from: followed up through the callers that hand the record down
+					type at struct {
+						v  ssa.Value
+						fn *ssa.Function
+					}
+					var recs []ssa.Value
+					work := []at{{fa.X, f}}
+					for depth := 0; len(work) > 0 && depth < 6; depth++ {
+						var next []at
+						for _, w := range work {
+							for _, d := range deepDefs(w.v, append([]*ssa.Function{w.fn}, coreFns...)) {
+								pr, isP := d.(*ssa.Parameter)
+								if !isP || pr.Parent() != w.fn {
+									recs = append(recs, d)
+									continue
+								}
+								sites := callSitesOf(w.fn, coreFns)
+								if len(sites) == 0 {
+									recs = append(recs, d)
+								}
+								for _, s := range sites {
+									for k, hp := range w.fn.Params {
+										if hp == pr && k < len(s.Common().Args) {
+											next = append(next, at{s.Common().Args[k], s.Parent()})
+										}
+									}
+								}
+							}
+						}
+						work = next
+					}
+					okCtx = len(recs) > 0
+					var builder *ssa.Function
+					for _, r := range recs {
+						al, isAl := r.(*ssa.Alloc)
+						if !isAl || !confinedPointer(al) || (builder != nil && builder != al.Parent()) {
+							okCtx = false
+							break
+						}
+						builder = al.Parent()
+					}
+					if okCtx {
+						leaves := resolveThroughLocals(ctxArg, append([]*ssa.Function{builder}, coreFns...))
+						if len(leaves) == 0 {
+							okCtx = false
+						}
+						for _, l := range leaves {
+							if lp, isP := l.(*ssa.Parameter); !isP || !isContext(lp.Type()) || lp.Parent() != builder {
+								okCtx = false
+							}
+						}
+					}
+				}
+			}
+			c.R.Check(okCtx, "C11-R5", fmt.Sprintf("%s: context passed to %s #%d", fname(f), name, n5), c.pos(in), "the enclosing function's own ctx parameter", "the context handed on is not the ctx parameter of the enclosing call ("+ctxArg.String()+"): a per-call deadline or cancellation would not reach the script")
 		})
 	}
 	if n5 < 5 {
